@@ -2,7 +2,10 @@ import vlib
 
 class P(vlib.Prop):
     id = "C14"
-    rule = ("stage c14: corpus first (C14-F1 replay, newer build on one architecture only, a package missing three dependency levels deep over three architectures, "
+    rule = ("stage multiarch: the real multi-architecture entry point (build.NewMultiArch + BuildPackageLists, i.e. APK.ResolveWorld with its ByArch siblings) on families of "
+            "per-architecture repositories that drifted apart (2-4 of amd64, arm64, arm/v7, arm/v6, riscv64, s390x; newest version missing somewhere, newer build only here, package only here), "
+            "reached as local directories, over HTTP with an ETag and over HTTP without one; every architecture's install list is judged by the verified validator foreign_check. "
+            "stage c14: corpus first (C14-F1 replay, newer build on one architecture only, a package missing three dependency levels deep over three architectures, "
             "a provider available on one side only, single architecture), then families of per-architecture universes: a generated base universe (as in C02's "
             "general stream; a quarter with install_if packages; a third with an explicit dependency chain c0 -> ... -> cN, N = 2..4, whose newest LEAF is missing on "
             "the second architecture) cloned for 2-3 architectures and drifted apart by 1-3 mutations each (version missing, newer build only here, rebuilt under "
@@ -13,6 +16,7 @@ class P(vlib.Prop):
             "some run installs two or more packages; distinct = distinct case terms.")
     stages = (
         dict(name="c14", cmd="c02", args=lambda t, s: ["-stage", "c14"]),
+        dict(name="multiarch", cmd="c14", args=lambda t, s: ["-stage", "multiarch"]),
     )
     coq_targets = ["Properties/C14.vo", "Corr/C14.vo"]
     assumptions = (
